@@ -27,7 +27,8 @@ REQUIRED = ["parse_sound", "last_member_decides", "lc_exact", "lc_exact_fails_wi
             "range_scan_stops_at_a_gap", "counters_read_back", "fact_store_bodies", "fact_store_keys",
             "new_transaction_sound", "signed_transaction_parses_back", "created_signed_parsed_admitted", "hex_round_trip", "fact_create_bodies", "json_branch_puts_no_demand_on_the_bytes",
             # deepening round 3: jwx.AlgorithmFitsKey inside the model, applied to the key the verifier resolved
-            "admitted_alg_fits_key", "alg_fits_ec_iff", "alg_must_fit_resolved_key", "fit_guard_must_see_the_resolved_key", "fact_alg_fits_key", "fact_add_write_body"]
+            "admitted_alg_fits_key", "alg_fits_ec_iff", "alg_must_fit_resolved_key", "fit_guard_must_see_the_resolved_key", "fact_alg_fits_key", "fact_add_write_body",
+            "transaction_counter_counts_admissions", "transaction_counter_unchanged_unless_admitted"]
 
 HEX64 = re.compile(r"^[0-9a-fA-F]{64}$")
 
@@ -348,7 +349,8 @@ def run(ctx):
 
     # ------------------------------------------------------------------ oracle 2: admission on the implementation's own observations
     prev = None          # previous observation dict within the history
-    prev_side = None     # previous IBLT/XOR digests (impl.side) within the history
+    prev_side = None     # previous IBLT/XOR digests (impl.side)
+    prev_mc, n_mc = None, 0   # previous (transaction counter, stored transactions) of the same state instance within the history
     prevless = set()     # refs of transactions without prevs offered in this history
     n_cancel = 0
     lcs_prev = []
@@ -433,6 +435,17 @@ def run(ctx):
         # state sanity at every observation: refs unique, count = |LC|, at most one root, xor = fold, no 'X'/'E' marks
         if len(set(refs)) != len(refs):
             violate("C06:ref-stored-twice", "FindBetweenLC lists a ref twice", i)
+        # the transaction counter (nuts_dag_transactions_total) moves by exactly the number of transactions that got in
+        # (theorem transaction_counter_counts_admissions); a restart / new node makes a new counter: only moves are compared
+        m_mc = re.search(r" mc=(\d+)", cur_side or "")
+        cur_mc = int(m_mc.group(1)) if m_mc else None
+        if kind in ("new", "reopen", "rbwin") or leg_of[i] != "dag":
+            prev_mc = None
+        if cur_mc is not None and prev_mc is not None and kind in ("add", "sched"):
+            n_mc += 1
+            if cur_mc - prev_mc[0] != len(refs) - prev_mc[1]:
+                violate("C06:transaction-counter-differs-from-admissions", f"nuts_dag_transactions_total moved by {cur_mc - prev_mc[0]} while {len(refs) - prev_mc[1]} transaction(s) entered the DAG", i)
+        prev_mc = (cur_mc, len(refs)) if cur_mc is not None and leg_of[i] == "dag" else None
         if o.get("m_n") is not None and int(o["m_n"]) != len(refs):
             violate("C06:count-differs-from-stored", f"tx count {o['m_n']} but {len(refs)} stored", i)
         if sum(1 for c, _ in lcs if c == "0") > 1:
@@ -616,6 +629,7 @@ def run(ctx):
         prev, lcs_prev, prev_side = o, lcs, cur_side
         if kind == "new":
             prev, lcs_prev, prev_side = o, [], cur_side
+    ctx.oblige("oracle:transaction-counter=admissions(impl)", "C06:transaction-counter-differs-from-admissions" not in seen_sig, f"{n_mc} counter moves compared")
     ctx.oblige("oracle:admission-sound/no-trace/idempotent(impl)", not any(s.split(":")[1] in (
         "rejected-left-trace", "rejected-left-trace-in-digests", "payload-event-with-wrong-bytes", "readd-changed-state", "admission-not-exactly-one", "admitted-with-missing-prev", "admitted-with-wrong-clock",
         "second-root", "admitted-bad-signature", "admitted-unresolvable-kid", "stored-payload-does-not-hash-to-its-key",
